@@ -39,7 +39,14 @@ RenderTags(ev) ==
     ELSE IF ev.out = BranchTag(a.branches[sel].tag) \o <<"COLON">> \o shown THEN {}
     ELSE {"run-time-branch:" \o ev.flav}
 
+\* many-branch range (MC_ManyBranch): exact branches 1..n, then the fallback
+ManyTags(ev) ==
+    LET n == Cases[ev.case].abs.n
+        want == IF ev.n \in 1..n THEN <<"b">> \o NatSyms(ev.n) ELSE <<"o","t","h","e","r">> IN
+    IF ev.outcome # "Ok" THEN {"render-outcome:" \o ev.outcome} ELSE IF ev.out = want THEN {} ELSE {"many-branches:" \o ev.flav}
+
 Tags(ev) == IF ev.ev = "Load" THEN CaseTags(ev)
+            ELSE IF ev.ev = "RenderManyBranch" THEN ManyTags(ev)
             ELSE IF ev.ev = "Render" THEN RenderTags(ev)
             ELSE IF ev.ev = "Crash" THEN {"crash:" \o ev.outcome}
             ELSE {}
